@@ -1,39 +1,103 @@
 import CollectionsC.Properties.C11
 import CollectionsC.Proofs.TSTCross
-/-! # C14 (TST table part): only the configured allocators
+/-! # C14 (TST table part): only the allocators the table was given
 
-The model routes every `mem_alloc` / `mem_calloc` / `mem_free` of `cc_tsttable.c` through `Mem.alloc` /
-`Mem.free`; `Mem.libc` counts events that bypass the configured triple.  The harness checks the same
-on the real library (`libc=a0 f0` in every `mem` section, `--wrap=malloc/calloc/free`). -/
+`Table.triple` is the copy of `mem_alloc / mem_calloc / mem_free` the C struct keeps: `.conf` after
+`cc_tsttable_new_conf` (the caller's triple), `.libc` after `cc_tsttable_new` (`conf_init` puts
+`malloc/calloc/free` there).  Every allocation and release of the model goes through
+`Mem.allocT t.triple` / `Mem.freeT t.triple`.  `SameOther tr m m'` (Proofs/TSTCross.lean) says that
+everything belonging to the *other* triple is untouched — these statements are falsifiable: a model
+function that used `Mem.alloc` (or `.libc`) directly would break them.  The harness checks the same
+on the real library (`libc=a0 f0 llive=0` for conf sessions, `a0 f0 live=…` unchanged for default
+sessions; `--wrap=malloc/calloc/free`). -/
 namespace CC.Properties.C14TST
 open CC CC.TST
 open CC.Spec.StrMap (Op Out IOp)
 
 variable {cmp : Cmp}
 
-/-- **libc_invariant**, constructor / every operation / destructor / iterator calls — for every state,
-key and schedule -/
-theorem new_libc_invariant (mem : Mem) : (Table.new mem).2.2.libc = mem.libc := Table.new_libc mem
+/-- **conf_uses_only_conf**: for a table built with the configured triple no call (constructor, table
+operations, iterator calls, destructor) touches the C-library counters — no event, no live block -/
+theorem conf_uses_only_conf (t : Table) (h : t.triple = .conf) (k : Key) (v : Nat) (it : Iter) (iop : IOp)
+    (mem : Mem) :
+    (∀ x, x = (t.add cmp k v mem).2.2 ∨ x = (t.remove cmp k mem).2.2.2 ∨ x = (t.removeAll mem).2 ∨
+        x = (t.destroy mem) ∨ x = (t.iterOp cmp it iop mem).2.2.2 ∨ x = (iterAll t mem).2 →
+      x.libc = mem.libc ∧ x.liveLibc = mem.liveLibc ∧ x.lalloc = mem.lalloc ∧ x.lfree = mem.lfree) := by
+  have key : ∀ x, SameOther t.triple mem x →
+      x.libc = mem.libc ∧ x.liveLibc = mem.liveLibc ∧ x.lalloc = mem.lalloc ∧ x.lfree = mem.lfree := by
+    intro x hx; rw [h] at hx; exact hx
+  intro x hx
+  rcases hx with rfl | rfl | rfl | rfl | rfl | rfl
+  · exact key _ (Table.add_sameOther t k v mem)
+  · exact key _ (Table.remove_sameOther t k mem)
+  · exact key _ (Table.removeAll_sameOther t mem)
+  · exact key _ (Table.destroy_sameOther t mem)
+  · exact key _ (Table.iterOp_sameOther t it iop mem)
+  · exact key _ (sameOther_iterAll t mem)
 
-theorem libc_invariant (t : Table) (op : Op) (mem : Mem) : (t.step cmp op mem).2.2.libc = mem.libc :=
-  Table.step_libc t op mem
+theorem new_conf_uses_only_conf (mem : Mem) :
+    (Table.new .conf mem).2.2.libc = mem.libc ∧ (Table.new .conf mem).2.2.liveLibc = mem.liveLibc ∧
+    (∀ t, (Table.new .conf mem).2.1 = some t → t.triple = .conf) := by
+  have h := Table.new_sameOther .conf mem
+  refine ⟨h.1, h.2.1, ?_⟩
+  intro t ht; unfold Table.new at ht; simp only [] at ht; split at ht <;> simp at ht; rw [← ht]
 
-theorem destroy_libc_invariant (t : Table) (mem : Mem) : (t.destroy mem).libc = mem.libc := Table.destroy_libc t mem
+/-- **default_uses_only_libc**: for a table built by `cc_tsttable_new` no call touches the configured
+ledger — no live block, no event, no refusal, the schedule is not even consulted -/
+theorem default_uses_only_libc (t : Table) (h : t.triple = .libc) (k : Key) (v : Nat) (it : Iter) (iop : IOp)
+    (mem : Mem) :
+    (∀ x, x = (t.add cmp k v mem).2.2 ∨ x = (t.remove cmp k mem).2.2.2 ∨ x = (t.removeAll mem).2 ∨
+        x = (t.destroy mem) ∨ x = (t.iterOp cmp it iop mem).2.2.2 ∨ x = (iterAll t mem).2 →
+      x.live = mem.live ∧ x.nalloc = mem.nalloc ∧ x.nfree = mem.nfree ∧ x.nrefused = mem.nrefused ∧
+      x.sched = mem.sched) ∧
+    (t.add cmp k v mem).1 = .ok := by
+  have key : ∀ x, SameOther t.triple mem x → x.live = mem.live ∧ x.nalloc = mem.nalloc ∧ x.nfree = mem.nfree ∧
+      x.nrefused = mem.nrefused ∧ x.sched = mem.sched := by
+    intro x hx; rw [h] at hx; exact hx
+  refine ⟨?_, Table.add_libc_ok t k v mem h⟩
+  intro x hx
+  rcases hx with rfl | rfl | rfl | rfl | rfl | rfl
+  · exact key _ (Table.add_sameOther t k v mem)
+  · exact key _ (Table.remove_sameOther t k mem)
+  · exact key _ (Table.removeAll_sameOther t mem)
+  · exact key _ (Table.destroy_sameOther t mem)
+  · exact key _ (Table.iterOp_sameOther t it iop mem)
+  · exact key _ (sameOther_iterAll t mem)
 
-theorem iter_libc_invariant (t : Table) (it : Iter) (op : IOp) (mem : Mem) :
-    (t.iterOp it op mem).2.2.2.libc = mem.libc := Table.iterOp_libc t it op mem
+theorem new_default_uses_only_libc (mem : Mem) :
+    (Table.new .libc mem).1 = .ok ∧ (Table.new .libc mem).2.2.live = mem.live ∧
+    (Table.new .libc mem).2.2.sched = mem.sched ∧ (Table.new .libc mem).2.2.liveLibc = mem.liveLibc + 1 := by
+  simp [Table.new, Mem.allocT]
 
-/-- lifted to histories and iterator programs -/
-theorem history_libc_invariant (t : Table) (ops : List Op) (mem : Mem) : (t.run cmp ops mem).2.2.libc = mem.libc :=
-  Table.run_libc t ops mem
+/-- **inherits_triple**: every operation hands the triple on unchanged (there are no derived containers;
+this is what keeps a whole history on one allocator) -/
+theorem triple_preserved (t : Table) (op : Op) (mem : Mem) : (t.step cmp op mem).2.1.triple = t.triple :=
+  Table.step_triple t op mem
 
-theorem iter_history_libc_invariant (t : Table) (it : Iter) (ops : List IOp) (mem : Mem) :
-    (t.iterRun it ops mem).2.2.2.libc = mem.libc := Table.iterRun_libc t it ops mem
+/-- **libc_invariant** lifted to histories (table calls and iterator sessions, every schedule): the
+counters of the other triple are where they were — cumulative form, because `Mem.begin` clears the
+per-call event counters at every `add` -/
+theorem history_uses_only_own_triple (t : Table) (ops : List Op) (mem : Mem) :
+    (t.triple = .conf → (t.run cmp ops mem).2.2.libc = mem.libc ∧ (t.run cmp ops mem).2.2.liveLibc = mem.liveLibc) ∧
+    (t.triple = .libc → (t.run cmp ops mem).2.2.live = mem.live) ∧
+    (t.run cmp ops mem).2.1.triple = t.triple := by
+  have h := Table.run_sameOtherC (cmp := cmp) t ops mem
+  refine ⟨fun hc => ?_, fun hl => ?_, Table.run_triple t ops mem⟩
+  · rw [hc] at h; exact h
+  · rw [hl] at h; exact h
 
-/-- construct … destroy as a whole -/
-theorem lifetime_libc_invariant (m0 : Mem) (ops : List Op) (t : Table) :
-    ((t.run cmp ops (Table.new m0).2.2).2.1.destroy (t.run cmp ops (Table.new m0).2.2).2.2).libc = m0.libc := by
-  rw [destroy_libc_invariant, history_libc_invariant, new_libc_invariant]
+/-- construct (conf) … any history … destroy as a whole: the C library allocator is never involved -/
+theorem lifetime_uses_only_conf (m0 : Mem) (ops : List Op) (t : Table) (h : (Table.new .conf m0).2.1 = some t) :
+    ((t.run cmp ops (Table.new .conf m0).2.2).2.1.destroy (t.run cmp ops (Table.new .conf m0).2.2).2.2).libc = m0.libc ∧
+    ((t.run cmp ops (Table.new .conf m0).2.2).2.1.destroy (t.run cmp ops (Table.new .conf m0).2.2).2.2).liveLibc =
+      m0.liveLibc := by
+  have ht := (new_conf_uses_only_conf m0).2.2 t h
+  have h1 := new_conf_uses_only_conf m0
+  have h2 := (history_uses_only_own_triple (cmp := cmp) t ops (Table.new .conf m0).2.2)
+  have h3 := Table.destroy_sameOther (t.run cmp ops (Table.new .conf m0).2.2).2.1 (t.run cmp ops (Table.new .conf m0).2.2).2.2
+  rw [h2.2.2, ht] at h3
+  have h4 := h2.1 ht
+  exact ⟨by rw [h3.1, h4.1, h1.1], by rw [h3.2.1, h4.2, h1.2.1]⟩
 
 /-- **allocator_independent**: `add` depends on the ledger only through the refusal schedule — two
 allocators that refuse the same requests give the same status and the same table (a pool that does
@@ -42,8 +106,10 @@ theorem add_allocator_independent (t : Table) (k : Key) (v : Nat) (mem mem' : Me
     (t.add cmp k v mem).1 = (t.add cmp k v mem').1 ∧ (t.add cmp k v mem).2.1 = (t.add cmp k v mem').2.1 :=
   Table.add_sched t k v mem mem' h
 
-/-- every operation (an `add` carries its schedule): outputs and resulting table are the same on any
-two ledgers; the same for whole histories -/
+/-- every operation of a history: outputs and resulting table are the same on any two ledgers.  No
+hypothesis on the schedules is needed **because `Op.add k v sched` carries the schedule of the call and
+`Table.step` installs it with `Mem.begin`, overwriting the incoming `mem.sched`**; the hypothesis-carrying
+form for a bare `add` is `add_allocator_independent`.  The same for whole histories. -/
 theorem allocator_independent (t : Table) (op : Op) (mem mem' : Mem) :
     (t.step cmp op mem).1 = (t.step cmp op mem').1 ∧ (t.step cmp op mem).2.1 = (t.step cmp op mem').2.1 :=
   Table.step_indep t op mem mem'
@@ -51,5 +117,11 @@ theorem allocator_independent (t : Table) (op : Op) (mem mem' : Mem) :
 theorem history_allocator_independent (t : Table) (ops : List Op) (mem mem' : Mem) :
     (t.run cmp ops mem).1 = (t.run cmp ops mem').1 ∧ (t.run cmp ops mem).2.1 = (t.run cmp ops mem').2.1 :=
   Table.run_indep t ops mem mem'
+
+/-! non-vacuity: the same insertion on a conf table and on a default table moves different counters -/
+example :
+    ((Table.mk 0 .nil .conf).add cmpSigned [97] 1 {}).2.2 = { live := 2, nalloc := 2 } ∧
+    ((Table.mk 0 .nil .libc).add cmpSigned [97] 1 {}).2.2 = { libc := 2, lalloc := 2, liveLibc := 2 } := by
+  decide
 
 end CC.Properties.C14TST
